@@ -21,6 +21,15 @@ TARGETS = {
         "src": "provider/src/log.rs",
         "args": ["--types", "Logs"],
     },
+    # core/src/read.rs: NanBox constructors, encode and try_decode (C06); the masks and discriminants are T1's
+    "NanBoxFnGen": {
+        "src": "core/src/read.rs",
+        "args": ["--types", "NanBox,ValueRef", "--newtype", "NanBox", "--assoc-consts-of-w", "", "--extern-consts-of-w",
+                 "--extern-enum", "Tag=TAG_", "--extern-enum", "ErrorCode=EC_",
+                 "--extern-method", "NanBox::tag=nb_tag_opt", "--extern-method", "Tag::as_val=tag_as_val",
+                 "--only", "encode,bool,null,number,string,obj,error,array,try_decode,to_bits,from_bits",
+                 "--import", "Gen.NanBoxGen", "--import", "NanBox.NanBoxExt"],
+    },
 }
 
 
